@@ -126,7 +126,7 @@ func aliasState(j *jobCtx, u Universe, path []Call) {
 		}
 	}
 	// (3) argument slices are copied
-	argOps(j, u, path)
+	argOps(j, u, path, argSlices())
 	// (4) GetSortedValues / GetSortedValuesFunc
 	sortedOps(u, path)
 }
@@ -144,7 +144,20 @@ func argSlices() [][]int {
 	return out
 }
 
-func argOps(j *jobCtx, u Universe, path []Call) {
+// one caller-owned slice of 70000 values (beyond any 16-bit bulk threshold), exactly full and with spare capacity
+func hugeArgSlices() [][]int {
+	var out [][]int
+	for _, lc := range [][2]int{{70000, 70000}, {66000, 70000}, {1, 1}} {
+		s := make([]int, lc[0], lc[1])
+		for i := range s {
+			s[i] = (i*5 + 3) % 7
+		}
+		out = append(out, s)
+	}
+	return out
+}
+
+func argOps(j *jobCtx, u Universe, path []Call, slices [][]int, only ...string) {
 	x := replay(u, path)
 	type argCall struct {
 		name string
@@ -175,6 +188,9 @@ func argOps(j *jobCtx, u Universe, path []Call) {
 		}
 	}
 	for _, ac := range acs {
+		if len(only) > 0 && ac.name != only[0] {
+			continue
+		}
 		e := aliasBase(x, "ScribbleArg")
 		e["method"] = ac.name
 		var y Inst
@@ -190,7 +206,7 @@ func argOps(j *jobCtx, u Universe, path []Call) {
 				scribble(reflect.ValueOf(arg))
 			})
 		} else {
-			for ai, arg := range argSlices() {
+			for ai, arg := range slices {
 				if ai > 0 {
 					e = aliasBase(x, "ScribbleArg")
 					e["method"] = ac.name
@@ -202,7 +218,7 @@ func argOps(j *jobCtx, u Universe, path []Call) {
 					e["before"] = contentOf(y)
 					scribble(reflect.ValueOf(arg))
 				})
-				if ai < 3 {
+				if ai < len(slices)-1 {
 					e["panic"], e["pmsg"], e["out"] = ci.Panic, ci.PMsg, ci.Out
 					if y != nil && !ci.Panic {
 						e["after"] = contentOf(y)
@@ -325,6 +341,14 @@ func jobAlias(j *jobCtx) {
 		paths := enumStates(u, limit, isMut(x0))
 		if bp := bigStatePath(x0); bp != nil {
 			paths = append(paths, bp)
+		}
+		// huge argument slices first (fixed cost): into the empty container and into the first non-empty state
+		for pi, p := range paths {
+			if pi == 0 {
+				argOps(j, u, p, hugeArgSlices())
+			} else if pi == 1 {
+				argOps(j, u, p, hugeArgSlices(), "Add")
+			}
 		}
 		for _, p := range paths {
 			if budgetExceeded() {
